@@ -512,6 +512,25 @@ func genRT(pr rtProfile) func(r *rand.Rand, w *W) [][]string {
 				concrete := strings.NewReplacer("{id}", "5", "{x}", "7").Replace(full)
 				ops = append(ops, []string{"serve", "GET", concrete}, []string{"serve", "OPTIONS", concrete}, []string{"serve", "POST", concrete})
 				pool = append(pool, full)
+				{
+					// two nested prefixes under DIFFERENT parents are handed the same slice of one caller-owned array
+					// (spare capacity behind it): each must keep the middlewares of its own parent (a callee that
+					// appends to its argument in place, or keeps it without copying, mixes them up).  No random draw
+					// and no pool entry here: the rest of the case is generated as before.
+					sg := "S9x" + itoa(len(ops))
+					pa, pb := fid+"a", fid+"b"
+					ops = append(ops, append([]string{"prefix", pa, "r", base + "/adm"}, list("m"+sg+"a")...))
+					ops = append(ops, append([]string{"prefix", pb, "r", base + "/pub"}, list("m"+sg+"b")...))
+					ops = append(ops, append([]string{"prefix", pa + "n", pa, "/api"}, list(sg+".0", sg+".1")...))
+					ops = append(ops, append([]string{"prefix", pb + "n", pb, "/api"}, list(sg+".0", sg+".1")...))
+					hid++
+					ops = append(ops, append([]string{"handle", pa + "n", "/x", "h" + itoa(hid)}, append(list("m"+sg+"r"), list("GET")...)...))
+					hid++
+					ops = append(ops, append([]string{"handle", pb + "n", "/x", "h" + itoa(hid)}, append(list("m"+sg+"r"), list("GET")...)...))
+					ops = append(ops, []string{"serve", "GET", base + "/adm/api/x"}, []string{"serve", "POST", base + "/adm/api/x"},
+						[]string{"serve", "GET", base + "/pub/api/x"})
+					w.Count("shape-shared-slice-under-two-parents")
+				}
 				observe()
 				w.Count("shape-facade-before-use")
 			case 10: // a literal label that begins with '{' (an unterminated brace is literal text) among >= 5 siblings,
